@@ -1293,6 +1293,18 @@ def m_vec_len(interp, path, args, ret_ty, callee):
     return IntV(n, "usize") if canon(callee).endswith("len") else BoolV(n == 0)
 
 
+@model(r"^<impl \[.*\]>::(first|last)$", "first / last element of an entry-list slice by reference")
+def m_slice_first(interp, path, args, ret_ty, callee):
+    from .interp import _ConstRef
+    v = deref(interp, path, args[0])
+    if v.kind != "struct":
+        raise Refuse("first of %r" % (v,))
+    if not v.fields:
+        return EnumV(ret_ty, 0, {0: []})
+    e = v.fields[0] if canon(callee).endswith("first") else v.fields[-1]
+    return EnumV(ret_ty, 1, {1: [_ConstRef("&" + getattr(e, "ty", "T"), e)]})
+
+
 @model(r"^Vec::<.*>::pop$", "remove and return the last element of an entry-list vector")
 def m_vec_pop(interp, path, args, ret_ty, callee):
     r = args[0]
